@@ -15,6 +15,7 @@ TYPE_CODE_STRUCT = 3
 TYPE_CODE_UNION = 4
 TYPE_CODE_INT = 8
 TYPE_CODE_ARRAY = 2
+TYPE_CODE_FLT = 9
 COMMAND_DATA = 1
 STDOUT = 0
 STDERR = 1
@@ -88,7 +89,12 @@ class wl_resource(C.Structure):
 
 
 NAMED = {'char': C.c_char, 'int': C.c_int, 'struct wl_resource': wl_resource, 'struct wl_object': wl_object,
-         'struct wl_closure': wl_closure}
+         'struct wl_closure': wl_closure,
+         # the scalar types of C that any GDB knows
+         'float': C.c_float, 'double': C.c_double, 'long': C.c_long, 'unsigned int': C.c_uint, 'unsigned': C.c_uint,
+         'short': C.c_short, 'unsigned short': C.c_ushort, 'unsigned char': C.c_ubyte, 'signed char': C.c_byte,
+         'long long': C.c_longlong, 'unsigned long': C.c_ulong, 'unsigned long long': C.c_ulonglong,
+         'int32_t': C.c_int32, 'uint32_t': C.c_uint32, 'int64_t': C.c_int64, 'uint64_t': C.c_uint64, 'size_t': C.c_size_t}
 
 
 _mem = {}
@@ -146,6 +152,8 @@ class Type:
             return TYPE_CODE_STRUCT
         if issubclass(self.ct, C.Array):
             return TYPE_CODE_ARRAY
+        if self.ct in (C.c_float, C.c_double):
+            return TYPE_CODE_FLT
         return TYPE_CODE_INT
 
     @property
@@ -210,7 +218,7 @@ class Value:
         t = self.type
         if t.ptr or _is_ptr(t.ct):
             return C.c_void_p.from_buffer_copy(_read(self.addr, C.sizeof(C.c_void_p))).value or 0
-        if t.code != TYPE_CODE_INT:
+        if t.code not in (TYPE_CODE_INT, TYPE_CODE_FLT):
             raise error('Cannot convert value to long.')
         return t.ct.from_buffer_copy(_read(self.addr, C.sizeof(t.ct))).value
 
@@ -227,14 +235,45 @@ class Value:
         return float(self._load())
 
     def cast(self, t):
+        if t.code == TYPE_CODE_FLT and self.type.code in (TYPE_CODE_INT, TYPE_CODE_FLT):
+            return Value(t, val=t.ct(float(self._load())).value)      # rounded to the precision of the C type
+        if self.type.code == TYPE_CODE_FLT and t.code == TYPE_CODE_INT:
+            return Value(t, val=t.ct(int(float(self._load()))).value)
         if self.type.code in (TYPE_CODE_PTR, TYPE_CODE_INT):
-            return Value(t, val=int(self))
+            v = int(self)
+            if t.code == TYPE_CODE_INT and t.ct is not C.c_char:
+                v = t.ct(v).value      # wraps like the C conversion
+            return Value(t, val=v)
         return Value(t, addr=self.addr)
+
+    def _arith(self, other, op):
+        """C-like binary arithmetic on scalars: a floating operand makes the result floating (of the wider type)."""
+        ot = other.type if isinstance(other, Value) else (Type(C.c_double) if isinstance(other, float) else Type(C.c_int))
+        a = self._load() if self.type.code == TYPE_CODE_FLT else int(self)
+        b = (other._load() if ot.code == TYPE_CODE_FLT else int(other)) if isinstance(other, Value) else other
+        if TYPE_CODE_FLT in (self.type.code, ot.code):
+            rt = Type(C.c_double) if C.c_double in (self.type.ct, ot.ct) else Type(C.c_float)
+            return Value(rt, val=rt.ct(op(float(a), float(b))).value)
+        r = op(int(a), int(b))
+        return Value(self.type, val=int(r))
 
     def __add__(self, n):
         if self.type.code != TYPE_CODE_PTR:
-            return Value(self.type, val=int(self) + int(n))
+            return self._arith(n, lambda a, b: a + b)
         return Value(self.type, val=int(self) + int(n) * self.type.target().sizeof)
+
+    def __sub__(self, n):
+        return self._arith(n, lambda a, b: a - b)
+
+    def __mul__(self, n):
+        return self._arith(n, lambda a, b: a * b)
+
+    def __truediv__(self, n):
+        import operator
+        return self._arith(n, lambda a, b: (a / b) if isinstance(a, float) else int(a / b) if b else operator.truediv(a, b))
+
+    def __neg__(self):
+        return self._arith(-1, lambda a, b: a * b)
 
     def dereference(self):
         if self.type.code != TYPE_CODE_PTR:
